@@ -9,3 +9,4 @@ import RelicVerif.Props.C09
 import RelicVerif.Props.C03
 import RelicVerif.Props.C18
 import RelicVerif.Props.C20
+import RelicVerif.Props.C08
